@@ -3,7 +3,7 @@
    the TRANSLATED function and through the verified monitor.  Extracted to OCaml with
    ExtrOcamlBasic only; numbers stay Coq's binary N. *)
 From Coq Require Import NArith List Bool String.
-From BM Require Import Base.Outcome Base.Prims Base.Layout Spec.CastSpec Spec.Monitor.
+From BM Require Import Base.Outcome Base.Prims Base.Layout Spec.CastSpec Spec.Monitor Model.LangValid Model.StdSlice.
 From BM.Gen Require Internal Root Checked Must.
 Import ListNotations.
 Open Scope bool_scope.
@@ -108,21 +108,6 @@ Definition x_val (o : outcome (list N)) : xobs :=
   | Ret v => XVal v
   | Panic w => panic_x w
   | UB _ => XUB
-  end.
-
-(* ---- validity of the checked target kinds (language facts; see Model/LangValid.v) ---- *)
-Fixpoint le_value (bs : list N) : N :=
-  match bs with
-  | [] => 0
-  | b :: r => b + 256 * le_value r
-  end.
-Definition valid_kind (k : N) (bs : list N) : bool :=
-  match k with
-  | 0 => true                                   (* any bit pattern *)
-  | 1 => le_value bs <? 2                       (* bool *)
-  | 2 => let v := le_value bs in                (* char: a Unicode scalar value *)
-         (v <? 55296) || ((57343 <? v) && (v <? 1114112))
-  | _ => negb (le_value bs =? 0)                (* NonZero* *)
   end.
 
 Record case : Type := mkCase {
